@@ -1465,6 +1465,12 @@ const SCENARIOS: &[(&str, &[(&str, &[u8])], Option<(&str, u32, u32, &str)>)] = &
 	("unreadable", &[("main.asm", b".addr 0x100;\n.include \".\";\n")], Some(("main.asm", 2, 1, "dir.apply.include."))),
 	("unreadable", &[("main.asm", b".addr 0x100;\n.du8 1; .dfile \"sub\";\n"), ("sub/x.bin", b"x")], Some(("main.asm", 2, 9, "dir.apply.dfile."))),
 	("unreadable", &[("main.asm", b".addr 0x100;\n.include \"sub/x.bin/y.asm\";\n"), ("sub/x.bin", b"x")], Some(("main.asm", 2, 1, "dir.apply.include.include.nosuchfile"))),
+	// relative paths are resolved against the directory of the file that mentions them, also AFTER an include from another directory
+	// has returned (same-named files with other content elsewhere are decoys); these projects must assemble
+	("path-after-include", &[("main.asm", b".addr 0x100;\n.dfile \"d.bin\";\n.include \"sub/b.asm\";\n.dfile \"d.bin\";\n.include \"c.asm\";\n"),
+		("d.bin", b"M"), ("c.asm", b".du8 0x11;\n"), ("sub/b.asm", b".dfile \"d.bin\";\n.include \"c.asm\";\n.dfile \"d.bin\";\n"), ("sub/d.bin", b"S"), ("sub/c.asm", b".du8 0x22;\n")], None),
+	("path-after-include", &[("main.asm", b".addr 0x100;\n.include \"sub/b.asm\";\n.dfile \"only_here.bin\";\n.include \"only_here.asm\";\n"),
+		("only_here.bin", b"M"), ("only_here.asm", b".du8 0x11;\n"), ("sub/b.asm", b".include \"deep/e.asm\";\n.dfile \"s.bin\";\n"), ("sub/s.bin", b"S"), ("sub/deep/e.asm", b".dfile \"s.bin\";\nNOP;\n"), ("sub/deep/s.bin", b"D")], None),
 	// diagnostics of an included file carry ITS name and position; the includer reports the failed include at its own statement
 	("in-child", &[("main.asm", b".addr 0x100;\n.include \"c.asm\";\n"), ("c.asm", b"NOP;\n  .align 1, 2;\n")], Some(("c.asm", 2, 3, "dir.toomany.align."))),
 	("in-child", &[("main.asm", b".addr 0x100;\n.include \"c.asm\";\n"), ("c.asm", b".global g9;\n.align g9;\n")], Some(("c.asm", 2, 1, "dir.apply.align.nosuch.local"))),
